@@ -6,6 +6,7 @@ import re
 
 KINDS = ['Eager', 'Lazy', 'NoCV']
 COLS = ['a', 'u', 'n']
+OPCOLS = COLS + ['zz']      # keyword 3 of a set() is one the class does not know
 TABLES = ['vorm_eager', 'vorm_lazy', 'vorm_no_c_v']
 
 COQ_HEADER = '''From Coq Require Import List ZArith Bool. Import ListNotations. Open Scope Z_scope.
@@ -53,6 +54,9 @@ def classes():
             u = IntCol(alternateID=True)
             n = IntCol(notNone=True, default=0)
         for c in (VOrmEager, VOrmLazy, VOrmNoCV):
+            # the instances are FALSY (an application class may define __len__/__bool__, e.g. a container-like row):
+            # library code that tests an instance or a weak reference's referent for truth instead of `is None` shows up
+            c.__len__ = lambda self: 0
             c.__module__ = __name__
             c.__qualname__ = c.__name__
             globals()[c.__name__] = c
@@ -223,7 +227,7 @@ def run_history(case):
                 setattr(o, COLS[op[2]], val_in(op[3]))
                 return ['none']
             if t == 'set':
-                o.set(**{COLS[c]: val_in(v) for c, v in op[2]})
+                o.set(**{OPCOLS[c]: val_in(v) for c, v in op[2]})
                 return ['none']
             if t == 'syncupdate':
                 o.syncUpdate()
@@ -310,9 +314,56 @@ def run_history(case):
             res.append([strong, weak])
         return res
 
+    def outcome(f):
+        try:
+            return ['ret', f()], False
+        except Exception as e:  # noqa
+            name = type(e).__name__
+            return ['exc', EXC.get(name, 'OTHER:' + name)], True
+
+    def iterate_and_write(sel_op, write_op):
+        """`for x in Cls.select(..): <write>`: the write runs in the body of the loop, after the first row was delivered
+        (after the loop when there is none).  SelectResults.__iter__ fetches every row before it hands out the first, so this
+        must equal the select followed by the write.  Returns the two outcomes and where the write's statements begin."""
+        C = cls[sel_op[1]]
+        sel = C.select(C.q.a == sel_op[2], orderBy='id') if sel_op[2] is not None else C.select(orderBy='id')
+        mark = [None]
+        r2 = [None]
+
+        def write():
+            mark[0] = len(state['log'])
+            r2[0] = outcome(lambda: do(write_op[:4]))[0]
+
+        def body():
+            objs = []
+            for x in sel:
+                objs.append(x)
+                if mark[0] is None:
+                    write()
+            res = [[o.id, token(o)] for o in objs]
+            del objs
+            return ['objs', res]
+        r1, _ = outcome(body)
+        if mark[0] is None:
+            write()
+        return r1, r2[0], mark[0]
+
     try:
-        for op in case['ops']:
+        ops = case['ops']
+        skip_next = False
+        for n, op in enumerate(ops):
+            if skip_next:
+                skip_next = False
+                continue
             state['log'], state['count'], state['fault'] = [], 0, None
+            if op[0] == 'select' and len(op) > 4 and op[4] == 'iter' and n + 1 < len(ops) and ops[n + 1][0] == 'setattr':
+                r1, r2, mark = iterate_and_write(op, ops[n + 1])
+                gc.collect(0)
+                snap = {'tables': dump(), 'slots': [view(o) for o in slots], 'cached': cached()}
+                out.append(dict(snap, out=r1, log=list(state['log'][:mark]), skip=True))
+                out.append(dict(snap, out=r2, log=list(state['log'][mark:])))
+                skip_next = True
+                continue
             raised = False
             try:
                 r = ['ret', do(op)]
@@ -474,8 +525,9 @@ def cobs(o):
                               for t in o['tables'])
     cached = '[%s]' % '; '.join('([%s], [%s])' % ('; '.join(z(i) for i in st), '; '.join(z(i) for i in wk))
                                 for st, wk in o['cached'])
-    return '{| o_out := %s; o_log := [%s]; o_tables := %s; o_slots := [%s]; o_cached := %s |}' % (
-        cout(o['out']), '; '.join(cstmt(s) for s in o['log']), tabs, '; '.join(cview(v) for v in o['slots']), cached)
+    return '{| o_out := %s; o_log := [%s]; o_tables := %s; o_slots := [%s]; o_cached := %s; o_skip := %s |}' % (
+        cout(o['out']), '; '.join(cstmt(s) for s in o['log']), tabs, '; '.join(cview(v) for v in o['slots']), cached,
+        'true' if o.get('skip') else 'false')
 
 
 def coq_case(case, obs):
@@ -559,6 +611,11 @@ def gen_history(rng, profile, length):
             keep = None
             if rng.random() < 0.5:
                 keep = rng.randint(0, max(0, len(rows[k])))
+            if live and rng.random() < profile.get('p_iterwrite', 0.0):
+                # for x in select: <assignment to a held object> -- queued as a pair of operations
+                c = rng.choice([0, 2])
+                queue.append(['setattr', rng.choice(live), c, rng.randint(0, 4), 'during'])
+                return ['select', k, rng.choice([None, None, 0, 1, 2]), None, 'iter']
             return ['select', k, rng.choice([None, None, 0, 1, 2]), keep]
         if t == 'byalt':
             return ['byalt', k, rng.randint(100, max(100, nextu[0]))]
@@ -577,7 +634,10 @@ def gen_history(rng, profile, length):
                 return ['setattr', h, c, colval(c)]
             if t == 'set':
                 cs = rng.sample([0, 1, 2], rng.randint(0, 3))
-                return ['set', h, [[c, colval(c)] for c in cs]]
+                kv = [[c, colval(c)] for c in cs]
+                if rng.random() < profile.get('p_unknown_kw', 0.06):
+                    kv.insert(rng.randint(0, len(kv)), [3, rng.randint(0, 4)])      # an unknown keyword among the columns
+                return ['set', h, kv]
             return [t, h]
         if t == 'unpickle':
             return ['unpickle', rng.randint(0, max(0, npick))] if npick else ['cull', k]
